@@ -31,3 +31,90 @@ Theorem C13_layout : forall size bs nd v, size <= 2 ^ 63 -> bs <= 10 -> In nd (s
   (post_order_offset (mkTree size bs) nd = Some (Unstable v) -> sp_stable_count size bs <= v).
 Proof. exact layout_spec. Qed.
 Print Assumptions C13_layout.
+
+(* ======== Gap audit (proofs in Proofs/GapStable.v) ========
+   G1: the Stable classification of EVERY node id (C13_stable_iff only covers the nodes listed in the tree);
+   G2: the exact picture of the slots in traversal order (C13_layout only bounds them);
+   G3: growth: the number of blocks and of stable pairs is monotone, the stable stored nodes of a blob are
+       exactly the first stored nodes, in post order, of every larger tree. *)
+From BaoV Require Import Model.Iter Spec.NodeSpec Proofs.ObPrefix Proofs.GapStable.
+
+(* any u64 node id, any block size, any size: as long as the byte end of the node's subtree does not wrap around
+   2^64, the node is classified Stable exactly when it is at or above the block level and its whole subtree
+   lies inside the blob *)
+Theorem C13_gap_stable_iff_all : forall size bs nd, sp_chunk_end nd * 1024 < 2 ^ 64 ->
+  ((exists v, post_order_offset (mkTree size bs) nd = Some (Stable v)) <->
+   (bs <= level nd /\ sp_chunk_end nd * 1024 <= size)).
+Proof. exact gap_stable_iff_all. Qed.
+Print Assumptions C13_gap_stable_iff_all.
+
+Theorem C13_gap_stable_value : forall size bs nd v, post_order_offset (mkTree size bs) nd = Some (Stable v) ->
+  bs <= level nd /\ v = post_order_offset_node (nd / 2 ^ bs).
+Proof. exact gap_stable_value. Qed.
+Print Assumptions C13_gap_stable_value.
+
+(* REFUTED beyond that hypothesis: node 2^53 - 1 covers chunks [0, 2^54); its byte end 2^64 wraps to 0
+   (ChunkNum::to_bytes is `self.0 << 10`), so the empty blob classifies it Stable (witness: size 0, block size 0,
+   node 2^53 - 1, slot 2^54 - 2) although none of its subtree is inside the blob.  Real behaviour of
+   BaoTree::post_order_offset for a node id far outside the tree. *)
+Theorem C13_gap_stable_wrap_refuted : exists size bs nd v,
+  post_order_offset (mkTree size bs) nd = Some (Stable v) /\ size < sp_chunk_end nd * 1024.
+Proof. exact gap_stable_wrap_refuted. Qed.
+Print Assumptions C13_gap_stable_wrap_refuted.
+
+(* in traversal order the stored nodes have the slots 0, 1, 2, ...: the first sp_stable_count are Stable, all
+   the others Unstable: the stable pairs are a prefix of the outboard with all unstable pairs after them *)
+Theorem C13_gap_post_slots_exact : forall size bs, size <= 2 ^ 63 -> bs <= 10 ->
+  map (post_order_offset (mkTree size bs)) (filter (sp_persisted size bs) (sp_post_nodes size bs))
+  = map (fun i => Some (if N.of_nat i <? sp_stable_count size bs then Stable (N.of_nat i) else Unstable (N.of_nat i)))
+        (seq 0 (N.to_nat (sp_blocks size bs - 1))).
+Proof. exact gap_post_slots_exact. Qed.
+Print Assumptions C13_gap_post_slots_exact.
+
+(* the cut lies inside the outboard (which has sp_blocks - 1 pairs, C03_size) *)
+Theorem C13_gap_stable_count_le : forall size bs, size <= 2 ^ 63 -> bs <= 10 ->
+  sp_stable_count size bs <= sp_blocks size bs - 1.
+Proof. exact gap_stable_count_le. Qed.
+Print Assumptions C13_gap_stable_count_le.
+
+Theorem C13_gap_blocks_mono : forall size size' bs, size <= size' -> sp_blocks size bs <= sp_blocks size' bs.
+Proof. exact gap_blocks_mono. Qed.
+Print Assumptions C13_gap_blocks_mono.
+
+(* the cut only moves forward when the blob grows (any block size) *)
+Theorem C13_gap_stable_count_mono : forall size size' bs, size <= size' -> size' <= 2 ^ 63 ->
+  sp_stable_count size bs <= sp_stable_count size' bs.
+Proof. exact gap_stable_count_mono. Qed.
+Print Assumptions C13_gap_stable_count_mono.
+
+(* the stable stored nodes of a blob, in post order, are exactly the first sp_stable_count stored nodes, in post
+   order, of the tree of every larger size (size' = size: of its own tree); any block size *)
+Theorem C13_gap_stable_nodes_prefix : forall size size' bs, size <= size' -> size' <= 2 ^ 63 ->
+  filter (fun nd => sp_persisted size bs nd && sp_subtree_inside size nd) (sp_post_nodes size bs)
+  = firstn (N.to_nat (sp_stable_count size bs)) (filter (sp_persisted size' bs) (sp_post_nodes size' bs)).
+Proof. exact gap_stable_nodes_prefix. Qed.
+Print Assumptions C13_gap_stable_nodes_prefix.
+
+(* a listed node classified Stable is a stored node with its subtree inside the blob in every larger tree *)
+Theorem C13_gap_stable_stays_listed : forall size size' bs nd v, size <= size' -> size' <= 2 ^ 63 -> bs <= 10 ->
+  In nd (sp_post_nodes size bs) -> post_order_offset (mkTree size bs) nd = Some (Stable v) ->
+  In nd (sp_post_nodes size' bs) /\ sp_persisted size' bs nd = true /\ sp_subtree_inside size' nd = true /\
+  sp_persisted size bs nd = true /\ sp_subtree_inside size nd = true.
+Proof. exact gap_stable_stays_listed. Qed.
+Print Assumptions C13_gap_stable_stays_listed.
+
+(* completeness: every node id at or above the block level whose whole subtree lies inside the blob is a stored
+   node of the blob's tree (any block size) ... *)
+Theorem C13_gap_inside_listed : forall size bs nd, size <= 2 ^ 63 -> bs <= level nd ->
+  sp_chunk_end nd * 1024 <= size ->
+  In nd (sp_post_nodes size bs) /\ sp_persisted size bs nd = true.
+Proof. exact gap_inside_listed. Qed.
+Print Assumptions C13_gap_inside_listed.
+
+(* ... hence the node ids classified Stable (byte end not wrapping) are exactly the stable stored nodes of the
+   tree, which C13_gap_post_slots_exact places in the first sp_stable_count slots *)
+Theorem C13_gap_stable_listed_all : forall size bs nd v, size <= 2 ^ 63 -> sp_chunk_end nd * 1024 < 2 ^ 64 ->
+  post_order_offset (mkTree size bs) nd = Some (Stable v) ->
+  In nd (sp_post_nodes size bs) /\ sp_persisted size bs nd = true /\ sp_subtree_inside size nd = true.
+Proof. exact gap_stable_listed_all. Qed.
+Print Assumptions C13_gap_stable_listed_all.
